@@ -84,10 +84,12 @@ def run_impl(case, runtime):
     url = ("https" if tls else "http") + "://example.com/"
     kw = dict(retries=n, uds="/tmp/sock" if uds else None, ssl_context=simnet.RecordingSSLContext())
     result = {}
+    # the request's connect time-out limits each attempt, never the pause between attempts
+    rq = {"extensions": {"timeout": {"connect": case["ct"]}}} if case.get("ct") is not None else {}
     if runtime == "sync":
         try:
             with httpcore.ConnectionPool(network_backend=simnet.SimBackend(net), **kw) as pool:
-                r = pool.request("GET", url)
+                r = pool.request("GET", url, **rq)
                 result["res"] = "connected" if r.status == 200 else f"status:{r.status}"
         except BaseException as e:  # noqa
             result["res"] = "starved" if isinstance(e, simnet.Starved) else "raised:" + simnet.exc_name(e)
@@ -95,7 +97,7 @@ def run_impl(case, runtime):
         async def main():
             try:
                 async with httpcore.AsyncConnectionPool(network_backend=simnet.AsyncSimBackend(net), **kw) as pool:
-                    r = await pool.request("GET", url)
+                    r = await pool.request("GET", url, **rq)
                     result["res"] = "connected" if r.status == 200 else f"status:{r.status}"
             except BaseException as e:  # noqa
                 result["res"] = "starved" if isinstance(e, simnet.Starved) else "raised:" + simnet.exc_name(e)
@@ -195,6 +197,10 @@ def all_cases(ctx):
         if c["outs"] and c["outs"][-1] == "ok" and (not c["tls"] or (len(c["outs"]) >= 2 and c["outs"][-2] == "ok")):
             for post in ("ConnectError", "ConnectTimeout", "ReadError"):
                 extra.append(dict(c, post=post))
+    for c in base:
+        if sum(1 for o in c["outs"] if o != "ok") >= 2:
+            for ct in (0.25, 0):
+                extra.append(dict(c, ct=ct))
     return cases + extra
 
 
